@@ -3,7 +3,7 @@ import importlib
 from pyvc.spec import SpecRegistry
 from . import common
 
-MODULES = ["leaf_station", "simstate", "statemachine", "servicing", "mechatronics", "updates"]
+MODULES = ["leaf_station", "simstate", "statemachine", "servicing", "mechatronics", "updates", "drivers", "iteration"]
 
 
 def build(world, ex):
